@@ -628,6 +628,57 @@ fn classify_lookup(
     "record-union"
 }
 
+thread_local! {
+    static REF_TABLES: std::cell::RefCell<HashMap<u64, Vec<(usize, DomainName, Vec<FlatRec>, std::rc::Rc<Vec<Option<(RefResult, &'static str)>>>)>>> =
+        std::cell::RefCell::new(HashMap::new());
+}
+
+/// For every question under `apex`: the reference answer on the union `e.all`
+/// and its class (`None` for questions outside the apex).
+fn ref_table(
+    questions: &[(DomainName, QueryType)],
+    apex: &DomainName,
+    e: &RefApex,
+) -> std::rc::Rc<Vec<Option<(RefResult, &'static str)>>> {
+    use std::hash::{Hash, Hasher};
+    let mut h = std::collections::hash_map::DefaultHasher::new();
+    let qid = questions.as_ptr() as usize;
+    qid.hash(&mut h);
+    apex.hash(&mut h);
+    e.all.hash(&mut h);
+    let key = h.finish();
+    REF_TABLES.with(|c| {
+        let mut c = c.borrow_mut();
+        let bucket = c.entry(key).or_default();
+        if let Some(hit) = bucket.iter().find(|x| x.0 == qid && x.1 == *apex && x.2 == e.all) {
+            return hit.3.clone();
+        }
+        let fz = FlatZone { apex: apex.clone(), soa: None, recs: Vec::new() };
+        let table: Vec<Option<(RefResult, &'static str)>> = questions
+            .iter()
+            .map(|(q, qtype)| {
+                fz.resolve_with(&e.all, q, *qtype).map(|want| {
+                    let class = match &want {
+                        RefResult::NameError => "name-error",
+                        RefResult::Delegation(_) => "referral",
+                        RefResult::Cname(_) => "cname",
+                        RefResult::Answer(rrs) => match (via_closest_encloser(e, apex, q), rrs.is_empty()) {
+                            (true, false) => "wildcard-answer",
+                            (true, true) => "wildcard-nodata",
+                            (false, false) => "answer",
+                            (false, true) => "nodata",
+                        },
+                    };
+                    (want, class)
+                })
+            })
+            .collect();
+        let rc = std::rc::Rc::new(table);
+        bucket.push((qid, apex.clone(), e.all.clone(), rc.clone()));
+        rc
+    })
+}
+
 /// Compare every question and the SOA of every apex.  `earlier_soas`: per
 /// apex the SOAs of SOA-bearing files other than the last one.
 fn evaluate(
@@ -666,23 +717,23 @@ fn evaluate(
                 }),
             }
         }
+        // reference answers per (apex, union), memoised per thread: the same
+        // union occurs in many configurations
+        let tables: Vec<(&DomainName, std::rc::Rc<Vec<Option<(RefResult, &'static str)>>>)> =
+            rc.apexes.iter().map(|(apex, e)| (apex, ref_table(questions, apex, e))).collect();
         for (qi, (q, qtype)) in questions.iter().enumerate() {
             lookups += 1;
-            let (want_apex, want) = ref_answer(rc, q, *qtype);
-            let class = match &want {
-                RefResult::NameError => "name-error",
-                RefResult::Delegation(_) => "referral",
-                RefResult::Cname(_) => "cname",
-                RefResult::Answer(rrs) => {
-                    let wild = via_closest_encloser(&rc.apexes[&want_apex], &want_apex, q);
-                    match (wild, rrs.is_empty()) {
-                        (true, false) => "wildcard-answer",
-                        (true, true) => "wildcard-nodata",
-                        (false, false) => "answer",
-                        (false, true) => "nodata",
+            // the present apex with the longest match answers
+            let mut pick: Option<(&DomainName, &(RefResult, &'static str))> = None;
+            for (apex, t) in &tables {
+                if let Some(ans) = &t[qi] {
+                    if pick.map_or(true, |(b, _)| apex.labels.len() > b.labels.len()) {
+                        pick = Some((*apex, ans));
                     }
                 }
-            };
+            }
+            let (want_apex, (want, class)) = pick.expect("root is always present");
+            let class: &'static str = class;
             *hist.entry(class).or_insert(0) += 1;
             if class.starts_with("wildcard") {
                 wl += 1;
@@ -694,7 +745,7 @@ fn evaluate(
                     question: Some(qi),
                 }),
                 Some((z, got)) => {
-                    if *z.get_apex() != want_apex {
+                    if z.get_apex() != want_apex {
                         out.push(Mismatch {
                             clause: "apex-selection",
                             detail: format!(
@@ -702,19 +753,19 @@ fn evaluate(
                                 show_name(q),
                                 qtype,
                                 show_name(z.get_apex()),
-                                show_name(&want_apex)
+                                show_name(want_apex)
                             ),
                             question: Some(qi),
                         });
-                    } else if !same_result(&got, &want) {
+                    } else if !same_result(&got, want) {
                         out.push(Mismatch {
-                            clause: classify_lookup(rc, earlier_soas, q, *qtype, &want_apex, &want, &got),
+                            clause: classify_lookup(rc, earlier_soas, q, *qtype, want_apex, want, &got),
                             detail: format!(
                                 "{} {} -> implementation {} but union gives {}",
                                 show_name(q),
                                 qtype,
                                 show_zone_result(&got),
-                                show_ref(&want)
+                                show_ref(want)
                             ),
                             question: Some(qi),
                         });
@@ -1376,7 +1427,7 @@ pub fn run(ctx: &Ctx) -> i32 {
             return 2;
         }
     };
-    let cap = ctx.tier.pick(40.0, 520.0);
+    let cap = ctx.tier.pick(48.0, 520.0);
     let (max_z, max_h) = ctx.tier.pick((3usize, 2usize), (5usize, 3usize));
     let dedup = ctx.tier == Tier::Thorough;
     let pt = pair_table(&al);
@@ -1524,51 +1575,55 @@ pub fn run(ctx: &Ctx) -> i32 {
         v
     };
 
-    // ---- phase C: every distinct zone state x every distinct hosts state x every question
-    let n_cfg = zreps.len() * hreps.len();
-    let stop = std::sync::atomic::AtomicBool::new(false);
-    let parts = par_fold(n_cfg, ctx.threads, ctx.seed, Acc::default, |acc, i| {
-        if stop.load(std::sync::atomic::Ordering::Relaxed) {
-            return;
-        }
-        if i % 256 == 0 && ctx.elapsed() > cap {
-            stop.store(true, std::sync::atomic::Ordering::Relaxed);
-            return;
-        }
-        let z = &zseqs[zreps[i / hreps.len()] as usize];
-        let h = &hseqs[hreps[i % hreps.len()] as usize];
-        handle_config(&al, &pt, acc, z, h);
-    });
-    for p in parts {
-        merge_acc(&mut total, p);
-    }
-    if stop.load(std::sync::atomic::Ordering::Relaxed) {
-        exhaustive = false;
-        report.extra.insert("cap_hit_in".into(), json!("phase C (configurations x questions)"));
-    }
-
     // ---- loader level
+    let t_a = ctx.elapsed();
     let lc = loader_contents();
     let cases = loader_cases();
     let root = work_dir("c12");
-    let rt = match tokio::runtime::Builder::new_current_thread().enable_all().build() {
-        Ok(r) => r,
-        Err(e) => {
-            eprintln!("C12: machinery error: tokio runtime: {e}");
-            return 2;
-        }
-    };
     let mut loader_run = 0u64;
     let mut loader_lookups = 0u64;
     let mut loader_raw_differs = 0u64;
     let mut loader_hist: BTreeMap<String, u64> = BTreeMap::new();
-    for (k, c) in cases.iter().enumerate() {
-        if ctx.elapsed() > cap + 15.0 {
-            exhaustive = false;
-            report.extra.insert("cap_hit_in_loader_after_cases".into(), json!(k));
-            break;
+    // the cases are independent (own directory each): run them on all workers,
+    // then judge them in case order
+    let next = std::sync::atomic::AtomicUsize::new(0);
+    let mut outcomes: Vec<(usize, Result<LoaderOutcome, String>)> = Vec::new();
+    std::thread::scope(|sc| {
+        let mut hs = Vec::new();
+        for _ in 0..ctx.threads.max(1) {
+            hs.push(sc.spawn(|| {
+                let mut mine: Vec<(usize, Result<LoaderOutcome, String>)> = Vec::new();
+                let rt = match tokio::runtime::Builder::new_current_thread().enable_all().build() {
+                    Ok(r) => r,
+                    Err(e) => {
+                        mine.push((usize::MAX, Err(format!("tokio runtime: {e}"))));
+                        return mine;
+                    }
+                };
+                loop {
+                    let k = next.fetch_add(1, std::sync::atomic::Ordering::Relaxed);
+                    if k >= cases.len() || ctx.elapsed() > cap {
+                        break;
+                    }
+                    mine.push((k, run_loader_case(&lc, &cases[k], &root, k, &rt)));
+                }
+                mine
+            }));
         }
-        match run_loader_case(&lc, c, &root, k, &rt) {
+        for h in hs {
+            if let Ok(v) = h.join() {
+                outcomes.extend(v);
+            }
+        }
+    });
+    outcomes.sort_by_key(|x| x.0);
+    if outcomes.len() < cases.len() {
+        exhaustive = false;
+        report.extra.insert("cap_hit_in_loader_cases_run".into(), json!(outcomes.len()));
+    }
+    for (k, outcome) in outcomes {
+        let c = &cases[k.min(cases.len() - 1)];
+        match outcome {
             Err(e) => {
                 let _ = std::fs::remove_dir_all(&root);
                 eprintln!("C12: machinery error in loader case: {e}");
@@ -1610,6 +1665,30 @@ pub fn run(ctx: &Ctx) -> i32 {
     }
     let _ = std::fs::remove_dir_all(&root);
     let _ = std::fs::remove_dir(Path::new(VERIF_ROOT).join(".work"));
+
+    let t_loader = ctx.elapsed();
+    // ---- phase C: every distinct zone state x every distinct hosts state x every question
+    let n_cfg = zreps.len() * hreps.len();
+    let stop = std::sync::atomic::AtomicBool::new(false);
+    let parts = par_fold(n_cfg, ctx.threads, ctx.seed, Acc::default, |acc, i| {
+        if stop.load(std::sync::atomic::Ordering::Relaxed) {
+            return;
+        }
+        if i % 256 == 0 && ctx.elapsed() > cap {
+            stop.store(true, std::sync::atomic::Ordering::Relaxed);
+            return;
+        }
+        let z = &zseqs[zreps[i / hreps.len()] as usize];
+        let h = &hseqs[hreps[i % hreps.len()] as usize];
+        handle_config(&al, &pt, acc, z, h);
+    });
+    for p in parts {
+        merge_acc(&mut total, p);
+    }
+    if stop.load(std::sync::atomic::Ordering::Relaxed) {
+        exhaustive = false;
+        report.extra.insert("cap_hit_in".into(), json!("phase C (configurations x questions)"));
+    }
 
     // fixed samples
     for (z, h) in [(vec![0u8, 3], vec![0u8]), (vec![11u8, 12, 8], vec![1u8, 4])] {
@@ -1661,6 +1740,9 @@ pub fn run(ctx: &Ctx) -> i32 {
     });
     report.exhaustive = exhaustive;
     report.outcome_histogram = hist;
+    report.extra.insert("wall_sequences_and_classes_s".into(), json!(t_a));
+    report.extra.insert("wall_loader_s".into(), json!(t_loader - t_a));
+    report.extra.insert("wall_questions_s".into(), json!(ctx.elapsed() - t_loader));
     report.extra.insert("wildcard_lookups".into(), json!(total.wildcard_lookups));
     report.extra.insert("violation_counts".into(), json!(total.keep.counts));
     report.assumptions = vec![
